@@ -149,7 +149,14 @@ def run(ctx):
                 units = ["bohr", "angstrom"] if not quick else [["bohr", "angstrom"][i % 2]]
                 for unit in units:
                     specs.append({"mol": name, "d": d, "unit": unit, "method": method})
+    # frozen cores: 1 core orbital (H4 (2e,2o)) and 2 core orbitals (H6 (2e,2o)): core-core terms only exist from two cores on
+    for method in ("dhf", "pyscf"):
+        specs.append({"mol": "H4", "d": 1.0, "unit": "bohr", "method": method, "active": [2, 2], "mappings": ["jordan_wigner"]})
+        specs.append({"mol": "H6", "d": 1.0, "unit": "angstrom", "method": method, "active": [2, 2], "mappings": ["jordan_wigner"] if quick else MAPPINGS})
     if not quick:
+        for method in ("dhf", "pyscf"):
+            specs.append({"mol": "H6", "d": 0.8, "unit": "bohr", "method": method, "active": [2, 3], "mappings": ["jordan_wigner"]})
+            specs.append({"mol": "H6", "d": 1.2, "unit": "bohr", "method": method, "active": [4, 3], "mappings": ["jordan_wigner"]})
         specs.append({"mol": "H4", "d": 1.0, "unit": "bohr", "method": "pyscf"})
         specs.append({"mol": "H4", "d": 1.5, "unit": "angstrom", "method": "dhf", "mappings": ["jordan_wigner"]})
         for d in (1.2, 1.6, 2.2):
@@ -160,5 +167,5 @@ def run(ctx):
         specs = [s for s in specs if only in (s["mol"], s["method"])]
     ctx.enumerate(specs, axis="molecules", chunk=1)
     ctx.coverage["alphabet"] = {"molecules": sorted({s["mol"] for s in specs}), "bond_lengths_angstrom": lengths, "methods": ["dhf", "pyscf"],
-                                "mappings": MAPPINGS, "units": ["bohr", "angstrom"], "active_spaces": [] if quick else [[2, 2], [2, 3]]}
+                                "mappings": MAPPINGS, "units": ["bohr", "angstrom"], "active_spaces": [[2, 2]] if quick else [[2, 2], [2, 3], [4, 3]]}
     ctx.coverage["bound"] = {"basis": "sto-3g", "energy_tolerance_hartree": E_TOL}
